@@ -288,7 +288,7 @@ theorem constVal_pull (M : Model) (ρ : Valuation) (σ : Ty.TyInst) (n : String)
     | k + 2 => simp only [Model.size_pull]
 
 /-- inversion of `checkedGetType` on an application -/
-theorem Term.checkedGetType_comb_inv (bd : List Ty) (f a : Term) (T : Ty)
+theorem Term.checkedGetType_comb_inv_ty (bd : List Ty) (f a : Term) (T : Ty)
     (h : Term.checkedGetType bd (.comb f a) = .ok T) :
     ∃ tf ta, Term.checkedGetType bd f = .ok tf ∧ Term.checkedGetType bd a = .ok ta ∧
       tf.range? = some T := by
@@ -313,7 +313,7 @@ theorem Term.checkedGetType_comb_inv (bd : List Ty) (f a : Term) (T : Ty)
             · cases h
 
 /-- inversion of `checkedGetType` on an abstraction -/
-theorem Term.checkedGetType_abs_inv (bd : List Ty) (x : String) (S : Ty) (b : Term) (T : Ty)
+theorem Term.checkedGetType_abs_inv_ty (bd : List Ty) (x : String) (S : Ty) (b : Term) (T : Ty)
     (h : Term.checkedGetType bd (.abs x S b) = .ok T) :
     ∃ tb, Term.checkedGetType (S :: bd) b = .ok tb ∧ T = Ty.fn S tb := by
   simp only [Term.checkedGetType, bind, Except.bind] at h
@@ -331,7 +331,7 @@ theorem sem_substType (M : Model) (ρ : Valuation) (σ : Ty.TyInst) (bd : List T
   | var n S => simp only [Term.substType, sem, Valuation.pull]; rfl
   | const n S => simp only [Term.substType, sem]; exact constVal_pull M ρ σ n S
   | comb f a ihf iha =>
-    obtain ⟨tf, ta, hf, ha, hr⟩ := Term.checkedGetType_comb_inv bd f a T h
+    obtain ⟨tf, ta, hf, ha, hr⟩ := Term.checkedGetType_comb_inv_ty bd f a T h
     have hgf := Term.getType_of_checked bd f tf hf
     simp only [Term.substType, sem]
     rw [Term.getType_substType σ bd f tf hgf, hgf]
@@ -340,7 +340,7 @@ theorem sem_substType (M : Model) (ρ : Valuation) (σ : Ty.TyInst) (bd : List T
     simp only
     rw [ihf bd env tf hf, iha bd env ta ha, Model.size_pull]
   | abs x S b ih =>
-    obtain ⟨tb, hb, rfl⟩ := Term.checkedGetType_abs_inv bd x S b T h
+    obtain ⟨tb, hb, rfl⟩ := Term.checkedGetType_abs_inv_ty bd x S b T h
     have hgb := Term.getType_of_checked (S :: bd) b tb hb
     simp only [Term.substType, sem]
     have h1 := Term.getType_substType σ (S :: bd) b tb hgb
